@@ -4,7 +4,7 @@ from __future__ import annotations
 import itertools
 from collections import deque
 
-from ..core import Batch, cZ, clist, copt, cpair
+from ..core import Batch, cZ, clist, cpair
 
 ID = "C17"
 LEVEL = "proof"
@@ -457,7 +457,7 @@ def batches(ctx):
     # 2. range-minimum queries: random arrays, explicit (also malformed) queries --
     qcases = [{"data": [], "queries": []}]            # the constructor must raise on an empty array
     kinds = {"in_range": 0, "empty_or_reversed": 0, "out_of_range": 0, "empty_array": 1}
-    for _ in range(300 if quick else 4000):
+    for _ in range(600 if quick else 6000):
         n = rng.choice([1, 2, 3, 4, 5, 7, 8, 9, 15, 16, 17, 31, 32, 33, 40, rng.randint(1, 40)])
         alpha = rng.choice([2, 3, 10, 1000])
         data = [rng.randrange(alpha) for _ in range(n)]
@@ -489,7 +489,7 @@ def batches(ctx):
                                clist(cpair(cn(i), cn(j)) for i, j in c["queries"])),
         enc_out=enc_out_rmq, oracle=oracle_rmq,
         nontrivial=lambda c, r: len(c["data"]) >= 2,
-        exhaustive=False, shard=400,
+        exhaustive=False, shard=25,
         describe="the empty array (constructor raises), random arrays up to length 40 (lengths around powers of two favoured) with "
                  "40 in-range / empty / reversed / out-of-range queries each",
     )
@@ -514,12 +514,17 @@ def batches(ctx):
     # 4. trees: random shapes up to 40 nodes, random + malformed queries -----------
     xcases = []
     styles = {}
-    for _ in range(80 if quick else 1500):
+    for _ in range(160 if quick else 1500):
         n = rng.choice([8, 12, 16, 17, 24, 32, 33, 40, rng.randint(7, 40)])
         style, s = random_shape(rng, n)
         styles[style] = styles.get(style, 0) + 1
         xcases.append({"shape": s, "queries": _random_queries(rng, s, 150)})
-    ctx.dist["lca_random"] = {"styles": styles, "queries": sum(len(c["queries"]) for c in xcases)}
+    probe = impl_lca({"shape": [[], []], "queries": [["lca", []], ["lca", [[9]]], ["level", [9]]]})
+    ctx.dist["lca_random"] = {"styles": styles, "queries": sum(len(c["queries"]) for c in xcases),
+                              "malformed_per_tree": 7,
+                              "exceptions_observed": {"no_argument": probe["answers"][0] if probe["answers"] else probe["built"],
+                                                      "foreign_node": probe["answers"][1] if probe["answers"] else probe["built"],
+                                                      "level_of_foreign_node": probe["answers"][2] if probe["answers"] else probe["built"]}}
     yield Batch(
         name="lca_random", header=HEADER_LCA, run="run_lca", eqb=EQB_LCA,
         ty_in="rose * list qry", ty_out="option (list (option (list Z)))",
